@@ -405,7 +405,10 @@ M("r13-revert-F23", ["C04"], "break",
 
 M("r1c-revert-F24", ["C14"], "break",
   [("yaep.c", "      grammar->one_parse_p = saved_one_parse_p;\n      pl_fin ();", "      pl_fin ();")], "grammar.one_parse_p")
-M("r15-skip-first-start-situation", ["C09", "C01"], "break",
+M("r15-skip-first-start-situation", ["C09", "C01", "C05", "C06"], "break",
   [("yaep.c", "  for (i = set->core->n_start_sits - 1; i >= 0; i--)\n    {\n      if ((dist = dists[i]) <= 1)", "  for (i = set->core->n_start_sits - 1; i > 0; i--)\n    {\n      if ((dist = dists[i]) <= 1)")], "covers-all-start-situations")
-M("r15-benign-ascending-loop", ["C09", "C01"], "benign",
+M("r15-benign-ascending-loop", ["C09", "C01", "C05", "C06"], "benign",
   [("yaep.c", "  for (i = set->core->n_start_sits - 1; i >= 0; i--)\n    {\n      if ((dist = dists[i]) <= 1)", "  for (i = 0; i < set->core->n_start_sits; i++)\n    {\n      if ((dist = dists[i]) <= 1)")])
+
+M("r15-compare-cores-only", ["C09", "C01", "C05", "C06"], "break",
+  [("yaep.c", "      if (pl[pl_curr + 1 - dist] != pl[place + 1 - dist])", "      if (pl[pl_curr + 1 - dist]->core != pl[place + 1 - dist]->core)")], "compares-sets")
